@@ -11,7 +11,7 @@ class C05(C02):
                 'Lemmas.Refine.load_eq', 'Lemmas.Local.run_trunc', 'Lemmas.Fund.abs_decode_eq']
     rule = ('inputs outside the accepted language: every proper prefix of every enumerated well-formed item, every single-edit corruption, all '
             'strings of length <= 2, random; result struct pre-filled with a sentinel; eager and lazy reporting inside chunked strings both '
-            'accepted; non-trivial = a failing input of more than one byte; distinct by (input, outcome)')
+            'accepted; nested inputs under every single-fault and fail-stop refusal schedule (code MEMERROR, position just past the refused head, nothing left allocated, never a partial item: compared with the model of cbor_load); non-trivial = a failing input of more than one byte; distinct by (input, outcome)')
 
     def inputs(self, tier, rng):
         bufs, wf, nb, rnd = dec.corpus(tier, rng)
@@ -22,6 +22,50 @@ class C05(C02):
 
     def nontrivial(self, line, out):
         return out.startswith('ERR') and len(line.split()[1]) > 2
+
+    # ---- refused allocations: "MEMERROR just past a head whose allocation was refused", nothing left allocated, never a partial item
+    def faulted(self, tier, rng):
+        _, wf, _, _ = dec.corpus('quick', rng, rounds=1)
+        nested = [b for b in wf if 3 <= len(b) <= 40 and sum(1 for c in b if (c >> 5) in (4, 5, 6) or c in (0x5f, 0x7f, 0x9f, 0xbf)) >= 2]
+        nested += [bytes.fromhex(h) for h in ('9fc1a1008105ff', 'bf01a20203040506ff', '9f9fa10001ffff', '82a1009f01ff5f4100ff', 'bf61619f0102ff6162a1000000ff',
+                                              '9fc1c2a100a1010203ff', 'd9d9f79f82010203a10405ff')]
+        nested = nested[:: (1 if tier == 'thorough' else max(1, len(nested) // 120))]
+        lines = []
+        for b in nested:
+            for k in range(0, 26):
+                lines.append('LOAD %s 1 %d' % (gen.hexs(b), k)); lines.append('LOAD %s 2 %d' % (gen.hexs(b), k))
+        return lines
+
+    def corr_lines(self, tier, rng):
+        return super().corr_lines(tier, rng) + self.faulted(tier, core.Rng('C05-faulted'))
+
+    def oracle(self, tier, ctx):
+        fails = super().oracle(tier, ctx)
+        lines = self.faulted(tier, core.Rng('C05-faulted'))
+        c_out, rc, err = ctx.run_c(lines)
+        if rc != 0:
+            i, l, e = core.first_crash_line(ctx.harness, lines)
+            return fails + [{'input': l, 'expected': 'NULL + MEMERROR, or an item', 'observed': 'implementation aborted / sanitizer report', 'why': e[-900:]}]
+        m_out, _, _ = ctx.run_drv(lines) if ctx.model_ok else (c_out, 0, '')
+        free = {}
+        for l, co, mo in zip(lines, c_out, m_out):
+            ctx.count(l, co); ctx.bump('faulted_' + (co.split()[1] if co.startswith('ERR') else 'OK'))
+            w = l.split(); b = w[1]
+            d = dec.parse_load(co)
+            why = None
+            if d.get('ok') is False and d.get('live') != '0': why = 'failed load left %s block(s) allocated' % d.get('live')
+            elif co != mo:
+                why = 'under this refusal schedule the implementation reports %r, the model of cbor_load (proved to report MEMERROR just past the head whose allocation was refused, and never a partial item) reports %r' % (co[:160], mo[:160])
+            if why and len(fails) < 20:
+                fails.append({'input': l, 'expected': mo[:300], 'observed': co[:300], 'why': why})
+        return fails[:20]
+
+    def replay(self, ctx, rp):
+        l = rp['failure']['input']; w = l.split()
+        if len(w) >= 4 and w[2] in ('1', '2'):
+            co, rc, _ = ctx.run_c([l]); mo, _, _ = ctx.run_drv([l])
+            return [dict(rp['failure'], observed=(co[0] if co else 'abort')[:300])] if rc != 0 or co != mo else []
+        return super().replay(ctx, rp)
 
 
 PROP = C05()
